@@ -111,7 +111,8 @@ def step (s : St) : Ev → St × Res
   | .closeAll =>
     if s.broken then (s, .repeat_) else ({ s with broken := true, conns := s.conns.map (fun _ => false) }, .ok)
   | .accept =>
-    if s.closed then (s, .refused) else
+    -- (before /repo's fix `Accept` tested the closed flag first and lost the streams queued when the session closed)
+    if Gen.Session.acceptChecksClosedFirst && s.closed then (s, .refused) else
     match s.accq with
     | _ :: r => ({ s with accq := r }, .ok)
     | [] => if s.qclosed then (s, .refused) else (s, .block)
